@@ -95,6 +95,8 @@ class BaseDomain:
             "isinstance": self.b_isinstance, "hasattr": self.b_hasattr, "getattr": self.b_getattr,
             "round": self.b_round, "divmod": divmod, "repr": repr, "id": id, "iter": lambda x: x,
             "map": lambda f, *its: [self._call(f, *xs) for xs in zip(*[self._it(i) for i in its])],
+            "filter": lambda f, it: [x for x in self._it(it) if self._truth_of(self._call(f, x) if f is not None else x)],
+            "next": self.b_next, "callable": lambda f: callable(f) or hasattr(f, "node"),
             "True": True, "False": False, "None": None,
             "__file__": "<repo>", "__name__": "<module>",
         })
@@ -122,6 +124,78 @@ class BaseDomain:
 
     def _call(self, f, *a):
         return self._interp.call(f, list(a), {})
+
+    _NO_DEFAULT = object()
+
+    def b_next(self, it, default=_NO_DEFAULT):
+        """next(<generator expression>): generator expressions are evaluated eagerly to lists by the interpreter, so this is the first
+        element (the default / StopIteration when there is none)"""
+        items = self._it(it)
+        if items:
+            return items[0]
+        if default is not BaseDomain._NO_DEFAULT:
+            return default
+        from .interp import RepoRaise
+        raise RepoRaise("StopIteration", None, "next() of an exhausted iterator")
+
+    def _truth_of(self, v):
+        t = self.truth(v)
+        if t is True or t is False:
+            return t
+        if self._interp is not None:
+            return self._interp.decide(None, t)
+        raise Unsupported("truth of a symbolic value in filter()")
+
+    def std_module(self, name):
+        """itertools / functools models over concrete (already evaluated) iterables; callables go through the interpreter"""
+        import itertools as _it
+        import functools as _ft
+        from .dom_sym import Namespace
+        L = self._it
+        if name == "itertools":
+            return Namespace(
+                "itertools",
+                product=lambda *its, repeat=1: list(_it.product(*[L(i) for i in its], repeat=repeat)),
+                chain=lambda *its: [x for i in its for x in L(i)],
+                combinations=lambda it, r: list(_it.combinations(L(it), r)),
+                permutations=lambda it, r=None: list(_it.permutations(L(it), r)),
+                repeat=lambda x, n: [x] * n,
+                islice=lambda it, *a: list(_it.islice(L(it), *a)),
+                starmap=lambda f, it: [self._interp.call(f, list(L(x)), {}) for x in L(it)],
+                accumulate=self._accumulate,
+                zip_longest=lambda *its, fillvalue=None: list(_it.zip_longest(*[L(i) for i in its], fillvalue=fillvalue)),
+                pairwise=lambda it: list(zip(L(it)[:-1], L(it)[1:])),
+            )
+        if name == "functools":
+            return Namespace("functools", reduce=self._reduce,
+                             partial=lambda f, *a, **k: (lambda *b, **kk: self._interp.call(f, list(a) + list(b), dict(k, **kk))))
+        return None
+
+    def _reduce(self, f, it, *init):
+        items = self._it(it)
+        if init:
+            acc = init[0]
+        else:
+            if not items:
+                raise ModelError("reduce() of empty iterable with no initial value")
+            acc, items = items[0], items[1:]
+        for x in items:
+            acc = self._call(f, acc, x)
+        return acc
+
+    def _accumulate(self, it, func=None, initial=None):
+        items = self._it(it)
+        out = []
+        if initial is not None:
+            acc = initial
+            out.append(acc)
+        elif items:
+            acc, items = items[0], items[1:]
+            out.append(acc)
+        for x in items:
+            acc = self._call(func, acc, x) if func is not None else self._interp.binop(__import__("operator").add, acc, x, None)
+            out.append(acc)
+        return out
 
     def b_len(self, v):
         if isinstance(v, (list, tuple, dict, str, set, range)):
@@ -267,6 +341,8 @@ class BaseDomain:
 
     # ---------------------------------------------------------------- protocol
     def ext_module(self, name):
+        if name in ("itertools", "functools"):
+            return self.std_module(name)
         raise Unsupported(f"unknown-external module {name!r}")
 
     def truth(self, v):
